@@ -483,7 +483,11 @@ func (fr *frame) get(v ssa.Value) Value {
 	if !ok {
 		panic(engineErr("get: no slot for %T %s in %s", v, v.Name(), fr.fn))
 	}
-	return fr.env[i]
+	x := fr.env[i]
+	if s, ok := x.(*StrV); ok && s.src != nil {
+		s.sync()
+	}
+	return x
 }
 
 func (fr *frame) set(v ssa.Value, x Value) {
@@ -1407,7 +1411,7 @@ func (ex *Exec) sliceOp(in *ssa.Slice, x, lo, hi, max Value) Value {
 		}
 		l := int64(ex.concretize(loT, "slice low"))
 		h := int64(ex.concretize(hiT, "slice high"))
-		return &StrV{b: x.b[l:h]}
+		return &StrV{b: x.b[l:h], src: x.subAlias(l)}
 	case *Value: // *array
 		if x == nil {
 			ex.throw("invalid memory address or nil pointer dereference")
